@@ -24,7 +24,13 @@ type Image struct {
 	Max     uint32 // largest address seen
 	NRead   int
 	NWrite  int
+	// Limit > 0: a read beyond this many reads panics with LimitExceeded (a logical step bound for
+	// code under test that may not terminate)
+	Limit int
 }
+
+// LimitExceeded is the panic value raised when Image.Limit is passed.
+type LimitExceeded struct{ Reads int }
 
 func New(seed uint64) *Image {
 	return &Image{Seed: seed, Ov: map[uint32]byte{}, Wr: map[uint32]byte{}, Rd: map[uint32]bool{}, SWr: map[uint32]bool{}}
@@ -62,6 +68,9 @@ func (m *Image) RdAddr(a uint32) byte {
 		a &= 0xFFFFFF
 	}
 	m.NRead++
+	if m.Limit > 0 && m.NRead > m.Limit {
+		panic(LimitExceeded{m.NRead})
+	}
 	if !m.NoRdSet {
 		m.Rd[a] = true
 	}
